@@ -151,7 +151,7 @@ def run(ctx):
     ctx.log("proof ok=%s discharged=%d/%d" % (ok, ctx.cov["discharged"], ctx.cov["obligations"]))
 
     rng = ctx.rng("gen")
-    ncase = ctx.pick(140, 1500)
+    ncase = ctx.pick(90, 1100)
     nstores = ctx.pick(4, 8)
     gen = G.Gen(rng)
     cases = []
@@ -284,7 +284,7 @@ def run(ctx):
         ctx.violation({"property": "C07", "broken": "correspondence InlineTrans vs coq/C07/Model.v (accept_impl / ren_ok / inline_apply)",
                        "fortran_module": L.case_to_fortran(cases[ci]), "coq_case": corr[k][:4000],
                        "note": "no semantic difference was observed on the sampled stores for this case"},
-                      no_input=not unexplained)
+                      no_input=True)
     for k in bad_sem[:2]:
         ctx.violation({"property": "C07", "broken": "glue: Coq exec_call differs from the harness by-reference interpreter",
                        "fortran_module": L.case_to_fortran(cases[sem_ix[k]]), "coq_case": sem[k][:4000]}, no_input=True)
